@@ -126,7 +126,7 @@ def leaves(t: Term, truthy=None) -> List[Term]:
 
     def walk(x: Term) -> None:
         x = T.strip(x)
-        if x[0] == "const":
+        if x[0] == "const" or x == TRY_MERGE:
             return
         if x[0] == "not":
             walk(x[1])
@@ -150,9 +150,27 @@ def leaves(t: Term, truthy=None) -> List[Term]:
     return out
 
 
+TRY_MERGE = ("unknown", "try-merge")
+
+
+def resolve_phi(t: Any, assign: Dict[Term, bool], truthy=None) -> Any:
+    """Resolve phi / ifexp nodes whose conditions are decided by the assignment."""
+    if not isinstance(t, tuple) or not t:
+        return t
+    t = T.strip(t) if T.is_term(t) else t
+    if T.is_term(t) and t[0] in ("phi", "ifexp"):
+        try:
+            return resolve_phi(t[2] if eval_leaves(t[1], assign, truthy) else t[3], assign, truthy)
+        except NotBoolean:
+            pass
+    return tuple(resolve_phi(x, assign, truthy) if isinstance(x, tuple) else x for x in t)
+
+
 def eval_leaves(t: Term, assign: Dict[Term, bool], truthy=None) -> bool:
     t = T.strip(t)
     k = t[0]
+    if t == TRY_MERGE:
+        return True          # the no-exception path of a try statement (handlers are analysed on their own)
     if k == "const":
         return bool(t[1])
     if k == "not":
